@@ -128,7 +128,7 @@ def _file_vps(content):
 class C40(Check):
     id = "C40"
     prop_file = "theories/Properties/Properties_C40.v"
-    theorems = ("C40_flat_map", "C40_flat_bindings_in_range", "C40_flat_bindings_disjoint", "C40_flat_bindings_inside_cpuset",
+    theorems = ("C40_flat_map", "C40_flat_bindings_in_range", "C40_flat_bindings_disjoint", "C40_flat_bindings_inside_cpuset", "C40_hwloc_map",
                 "C40_flat_strings",
                 "C40_malformed_falls_back_to_flat", "C40_unreadable_file_falls_back_to_flat",
                 "C40_rr_refuted", "C40_rr_never_a_map", "C40_file_refuted", "C40_file_never_a_map",
@@ -148,8 +148,11 @@ class C40(Check):
                   "parsec_select_vpmap_thread_core -- bound to cores of the process cpuset for any finite cpuset; counts of the binding syntaxes match the request and range/list bindings are "
                   "in range. Refuted (the code does not implement what is documented; witnesses replayed on the real code in a forked "
                   "child): rr:n:p:c with n >= 1 always crashes (stub, NULL map), every readable file: map either crashes (at least one "
-                  "line applies to the process) or yields zero VPs; a mask can bind outside the cores. Partial: the hwloc map is not "
-                  "modelled.")
+                  "line applies to the process) or yields zero VPs; a mask can bind outside the cores. The hwloc map (one VP per socket) is "
+                  "modelled over the list of socket sizes hwloc reports and proved: one VP per socket that receives a thread, no empty "
+                  "VP, thread total = min(request, cores), VP v on the first cores of socket v; tied to the code on synthetic "
+                  "topologies (HWLOC_SYNTHETIC pack:S core:C pu:1, S 2..4, C 1..4) for every requested count. Partial only in that "
+                  "hwloc itself (topology discovery, binding) is assumed.")
     level_note = ("Trusted: harness defines parsec_hwloc_nb_real_cores (R is a case parameter), includes vpmap.c to reach the static "
                   "binding parser, perturbs malloc'd memory and paints the stack so that uninitialised reads fault deterministically; "
                   "hwloc bitmap primitives are modelled as finite sets / 'everything from 0'. parsec_hwloc_get_ht() is 1 in this "
@@ -163,14 +166,30 @@ class C40(Check):
             "start;end;step with missing/invalid parts, masks around bit R); pinit: the user path through parsec_init with "
             "PARSEC_MCA_runtime_vpmap; cinit nb sing cpus: the same path in a child restricted by sched_setaffinity to a cpuset with "
             "holes (single-cpu holes, wide holes, several holes, first cpu not 0), observing es->core_id and the real affinity "
-            "of every thread. Non-trivial = everything except the plain 'flat'/NULL strings; distinct = distinct case text")
+            "of every thread; hw S C nb sing / phw S C nb: the hwloc map on synthetic S-socket x C-core machines, every nb in "
+            "1..S*C+2, directly and through parsec_init. Non-trivial = everything except the plain 'flat'/NULL strings; distinct = distinct case text")
     trusted = ("harness/h_vpmap.c (see level_note); glibc prints '(null)' for a NULL %s argument (part of the modelled behaviour)",)
     assumptions = ("one processing unit per core and cpu numbers = core numbers on the test machine (cinit cases are generated only "
                    "when cpus 0..7 are available)",
-                   "hwloc supplies the number of binding resources R >= 1 and its bitmap primitives behave as sets; the hwloc map and "
+                   "hwloc supplies the number of binding resources R >= 1 and its bitmap primitives behave as sets; hwloc's socket/core counts are inputs of the hwloc-map model; "
                    "the later consumption of the masks by parsec.c (selection of one allowed core) are outside the model",
                    "the process is MPI rank 0; lines of a map file are shorter than getline's initial buffer (120 bytes)",
                    "numbers in specifications fit an int; thread counts in files use integer syntax")
+
+    def correspond(self, cases, tag="cases"):
+        """lib/vcheck.py names the case file <id>-<tag>-<seed>.txt: two runs of this check at the same time (another
+        tier, another agent) overwrite each other's file between the harness run and the model run, and every
+        observation after the first difference of the two files is misaligned.  The file gets a name of its own
+        (tier + pid) and is removed when both sides agree on it."""
+        import vcheck
+        mytag = "%s-%s-%d" % (tag, self.tier, os.getpid())
+        impl, model = super().correspond(cases, mytag)
+        if impl == model:
+            try:
+                os.unlink(os.path.join(vcheck.CASES, "%s-%s-%d.txt" % (self.id, mytag, self.seed)))
+            except OSError:
+                pass
+        return impl, model
 
     # ------------------------------------------------------------------ generators
     ALPHA = "0123456789:;,-x flatr"
@@ -375,6 +394,14 @@ class C40(Check):
                    (2, "file:/nonexistent-dir/verif-vpmap-no-such-file"), (2, "rr:2:2"))
             for nb, spec in (pin[:3] if q else pin):
                 out.append("pinit %d %s" % (nb, spec))
+        # --- the hwloc map (one VP per socket) on synthetic multi-socket machines: every requested count
+        for S in (2, 3, 4):
+            for C in (1, 2, 3, 4):
+                for nb in range(1, S * C + 3):
+                    out.append("hw %d %d %d %d" % (S, C, nb, r.pick([0, 0, 1, -1])))
+        phw = [(2, 4, 4), (3, 2, 2), (3, 2, 4), (2, 4, 3), (2, 2, 9), (4, 2, 6), (3, 3, 3), (2, 3, 0)]
+        for S, C, nb in (phw[:4] if q else phw):
+            out.append("phw %d %d %d" % (S, C, nb))
         # --- the user's path under a restricted process cpuset (taskset / batch scheduler): the default flat map
         # must bind every thread inside the cpuset, whatever its shape (holes, first cpu not 0)
         try:
@@ -460,6 +487,47 @@ class C40(Check):
             if why:
                 tag = "rr-unimplemented" if rrish else "spec-map"
                 return "%s: specification %r: %s" % (tag, spec, why)
+            return None
+        if kind in ("hw", "phw"):
+            S, C, nb = int(w[1]), int(w[2]), int(w[3])
+            want = S * C if nb <= 0 or nb > S * C else nb
+            if crashed:
+                return "hwloc-crash: the hwloc map on %d sockets x %d cores for %d threads killed the process (%s)" % (S, C, nb, obs[:20])
+            if kind == "hw":
+                mp = _parse_map(obs)
+                if mp is None:
+                    return "hwloc-crash: unparsable observation " + obs[:60]
+                nv, counts = mp[0], [k for k, _ in mp[2]]
+                binds = [ths for _, ths in mp[2]]
+            else:
+                m = re.match(r"ctx_vps=(-?\d+)(.*)$", obs)
+                if not m:
+                    return "hwloc-crash: unparsable observation " + obs[:60]
+                nv = int(m.group(1))
+                pairs = re.findall(r"(-?\d+)/(-?\d+)", m.group(2))
+                if any(a != b for a, b in pairs):
+                    return "hwloc-threads: the context and the map disagree on the threads of a virtual process: %s" % obs[:80]
+                counts, binds = [int(a) for a, _ in pairs], None
+            if len(counts) != nv:
+                return "hwloc-vp-count: %d virtual processes announced, %d described" % (nv, len(counts))
+            for v, k in enumerate(counts):
+                if k < 1:
+                    return "hwloc-empty-vp: virtual process %d of %d has %d threads (%d sockets x %d cores, %d threads requested)" % (
+                        v, nv, k, S, C, nb)
+            touched = (want + C - 1) // C
+            if nv != touched:
+                return "hwloc-vp-count: %d virtual processes, %d threads on %d sockets x %d cores touch %d sockets" % (nv, want, S, C, touched)
+            if sum(counts) != want:
+                return "hwloc-threads: the virtual processes have %d threads in total, %d requested" % (sum(counts), want)
+            for v, k in enumerate(counts):
+                if k > C:
+                    return "hwloc-threads: virtual process %d has %d threads, its socket has %d cores" % (v, k, C)
+                if binds is not None:
+                    for t, (nc, ht, st) in enumerate(binds[v]):
+                        cores, inf = _parse_set(st)
+                        if inf or not cores or any(c < v * C or c >= (v + 1) * C for c in cores):
+                            return "hwloc-binding: thread %d of virtual process %d may be bound on {%s}, socket %d holds cores %d-%d" % (
+                                t, v, st, v, v * C, (v + 1) * C - 1)
             return None
         if kind == "cinit":
             nb, cpus = int(w[1]), sorted(set(int(c) for c in w[3].split(",")))
